@@ -126,10 +126,90 @@ static void emit_node(const struct aws_json_value *v) {
         fputs("{\"t\":\"unknown\",\"x\":[]}", vh_out);
     }
 }
+/* flat form for very deep trees (the JSON reader of the trace validator stops at 255 levels): the nodes in document
+ * order as [kind, number of children, payload]; an object member is a ["key",0,[name bytes]] entry followed by its value */
+static int flat_first;
+static void flat_entry_begin(const char *kind, size_t n) {
+    fprintf(vh_out, "%s[\"%s\",%zu,", flat_first ? "" : ",", kind, n);
+    flat_first = 0;
+}
+static void emit_flat(const struct aws_json_value *v);
+static int flat_member(const struct aws_byte_cursor *key, const struct aws_json_value *value, bool *cont, void *ud) {
+    (void)cont;
+    (void)ud;
+    flat_entry_begin("key", 0);
+    emit_bytes(key->ptr, key->len);
+    fputc(']', vh_out);
+    emit_flat(value);
+    return AWS_OP_SUCCESS;
+}
+static int count_member(const struct aws_byte_cursor *key, const struct aws_json_value *value, bool *cont, void *ud) {
+    (void)key;
+    (void)value;
+    (void)cont;
+    ++*(size_t *)ud;
+    return AWS_OP_SUCCESS;
+}
+static void emit_flat(const struct aws_json_value *v) {
+    if (aws_json_value_is_object(v)) {
+        size_t n = 0;
+        aws_json_const_iterate_object(v, count_member, &n);
+        flat_entry_begin("obj", n);
+        fputs("[]]", vh_out);
+        aws_json_const_iterate_object(v, flat_member, NULL);
+    } else if (aws_json_value_is_array(v)) {
+        size_t n = aws_json_get_array_size(v);
+        flat_entry_begin("arr", n);
+        fputs("[]]", vh_out);
+        for (size_t i = 0; i < n; ++i) {
+            emit_flat(aws_json_get_array_element(v, i));
+        }
+    } else {
+        /* a scalar: [kind, 0, payload] with the payload of the nested form */
+        const char *kind = aws_json_value_is_string(v)    ? "str"
+                           : aws_json_value_is_number(v)  ? "num"
+                           : aws_json_value_is_boolean(v) ? "bool"
+                           : aws_json_value_is_null(v)    ? "null"
+                                                          : "unknown";
+        flat_entry_begin(kind, 0);
+        if (!strcmp(kind, "str")) {
+            struct aws_byte_cursor c = {0};
+            aws_json_value_get_string(v, &c);
+            emit_bytes(c.ptr, c.len);
+        } else if (!strcmp(kind, "num")) {
+            double d = 0;
+            aws_json_value_get_number(v, &d);
+            char p15[64], p17[64];
+            snprintf(p15, sizeof(p15), "%.15g", d);
+            snprintf(p17, sizeof(p17), "%.17g", d);
+            double y = strtod(p15, NULL);
+            fputc('[', vh_out);
+            emit_bytes((const uint8_t *)p15, strlen(p15));
+            fputc(',', vh_out);
+            emit_bytes((const uint8_t *)p17, strlen(p17));
+            fprintf(vh_out, ",%d,%d]", y == d, within_2_52(d, y));
+        } else if (!strcmp(kind, "bool")) {
+            bool b = false;
+            aws_json_value_get_boolean(v, &b);
+            fprintf(vh_out, "[%d]", b ? 1 : 0);
+        } else {
+            fputs("[]", vh_out);
+        }
+        fputc(']', vh_out);
+    }
+}
+static int flat_mode;
 static void vh_proj(const char *k, const struct aws_json_value *v) {
     vh_sep();
     fprintf(vh_out, "\"%s\":", k);
-    emit_node(v);
+    if (flat_mode && v != NULL) {
+        fputs("{\"t\":\"flat\",\"x\":[", vh_out);
+        flat_first = 1;
+        emit_flat(v);
+        fputs("]}", vh_out);
+    } else {
+        emit_node(v);
+    }
 }
 
 /* ---- numbers of a tree in document order (for the close flags) */
@@ -191,7 +271,10 @@ int main(int argc, char **argv) {
     struct aws_allocator *A = vh_alloc();
     static struct numlist na, nb;
     while (vh_next(in)) {
-        if (vh_is("RESET")) {
+        if (vh_is("FLAT")) { /* FLAT 0|1 : projection form of the following events (no library call, no event) */
+            flat_mode = (int)vh_argi(1);
+        } else if (vh_is("RESET")) {
+            flat_mode = 0;
             destroy_all();
             vh_begin("Reset");
             vh_int("live", (long long)(vh_live_blocks - base_live));
